@@ -255,7 +255,10 @@ def match_delegate(fn, scans):
     if len(rts) != 1:
         return None
     rb, rt = rts[0]
-    m = match(("field", ("call", V("h"), (("param", V("p")),)), V("vc")), terms.strip_casts(rt))
+    rt0 = terms.strip_casts(rt)
+    m = match(("field", ("call", V("h"), (("param", V("p")),)), V("vc")), rt0)
+    if m is None:       # the helper hands out a reference to the (static) row
+        m = match(("field", ("deref", ("call", V("h"), (("param", V("p")),))), V("vc")), rt0)
     if m is None or m["h"] not in scans or scans[m["h"]].get("val_col") is not None or scans[m["h"]]["kind"] != "table":
         return None
     h = scans[m["h"]]
